@@ -155,6 +155,10 @@ func ListSolarFromBaZiBySectAndBaseYear(yearGanZhi string, monthGanZhi string, d
 		hours = []int{0, 23}
 	}
 	startYear := baseYear - 1
+	// 基准年很早时（如公元1年），立春年可能早于y，往前退回到不早于起始年的最早一个甲子循环
+	for y-60 >= startYear {
+		y -= 60
+	}
 
 	// 结束年
 	endYear := time.Now().Local().Year()
